@@ -422,9 +422,10 @@ async def _main(case, obs, loop, net):
                 # until the next metadata refresh), or whose recovered partition waits for the node's in-flight
                 # long-poll to return, is recovering, not finished
                 for a in c.arrivals[scan_from:]:
-                    if _reply_has_error(a.reply) or a.fault:
+                    if _reply_has_error(a.reply) or a.fault or (a.t_end is not None and not a.delivered):
+                        # (a request whose reply never reached the client - connection torn down first - is trouble too)
                         last_trouble[0] = max(last_trouble[0], a.t_end if a.t_end is not None else a.t)
-                scan_from = len(c.arrivals)
+                scan_from = max(0, len(c.arrivals) - 40)      # requests still unanswered are looked at again
                 if idle < idle_cap and loop._vtime - last_trouble[0] < quiet_need:
                     continue
                 break
@@ -463,7 +464,7 @@ def _reply_has_error(r):
     return False
 
 
-def run(case):
+def _run(case):
     if not _SHIMMED[0]:
         setup()
     obs = Obs()
@@ -601,3 +602,10 @@ def _short(ev):
     d = {k: v for k, v in ev.items() if k not in ("records", "by_tp")}
     d["offsets"] = [(r["tp"], r["offset"]) for r in ev.get("records", [])][:12]
     return d
+
+
+def run(case):
+    """Execute the case (case["debug_log"]: with the library's DEBUG logging switched on); returns Obs."""
+    from vlib.core import debug_logging
+    with debug_logging(case.get("debug_log")):
+        return _run(case)
